@@ -6,7 +6,7 @@ LEVEL = 'exploration'
 TIMEOUT_S = 1200
 RULE = ('order 2..6 x nz in {order+1, order+2, 9} x n_theta in {4,5,8} x theta spline path (uniform cubic / general, non-uniform) x iota in {0, 0.8, 40, '
         'r-dependent profile} x every radial index of a radially distributed v_parallel_1d layout on process grids 1, 2, 3 (object built per rank '
-        'with that rank\'s Layout, as the driver does); data = every unit impulse (full operator matrix, selected configurations), constant, '
+        'with that rank\'s Layout, as the driver does) and of two other orderings ((z,r,theta) on 2x3, (theta,z,r) on 2x2); data = every unit impulse (full operator matrix, selected configurations), constant, '
         'field-aligned function, dense; every (object, radius) is called three times (state must not change between calls); oracle = finite-'
         'difference weights from an exact rational Vandermonde solve (centred stencil for even order), exact-rational theta evaluation matrices along '
         'the field line, factor b_z(r)/dz of the global radius; identities: constants -> 0, commutation with z shifts; an evaluation is one '
@@ -82,16 +82,23 @@ def run_case(case):
     dense = np.cos(1.3 * I[1] + 0.4) * (1 + 0.3 * I[0]) + 0.1 * I[0] ** 2 - 0.2 * I[0] * I[1]
     evals = nontriv = 0
     worst = 0.0
-    for p in (1, 2, 3):
-        for rank in range(p):
-            lay = Layout('v_parallel_1d', [p], [0, 2, 1], eta, [rank])
+    # the layouts the object is built with: the driver's radially distributed (r, z, theta) layout on process grids 1, 2, 3, and two
+    # other orderings of the same three dimensions whose permutation is not its own inverse ((z, r, theta) with z and r distributed,
+    # (theta, z, r) with r whole): the local radii are those of the position that holds r, wherever it is
+    worlds = [(p, rank, 'v_parallel_1d', [p], [0, 2, 1], [rank]) for p in (1, 2, 3) for rank in range(p)]
+    worlds += [('2x3', rk, 'z_r_theta', [2, 3], [2, 0, 1], list(rk)) for rk in ((1, 0), (0, 1), (1, 2))]
+    worlds += [('2x2', rk, 'theta_z_r', [2, 2], [1, 2, 0], list(rk)) for rk in ((0, 1), (1, 0))]
+    for p, rank, lname, lnp, lorder, lrank in worlds:
+        if True:
+            lay = Layout(lname, lnp, lorder, eta, lrank)
+            rpos = lorder.index(0)
             try:
                 pg = ParallelGradient(bth, eta, lay, c, order)
             except Exception as e:  # noqa
-                V('construct:' + type(e).__name__, '%s p=%d rank=%d: %s: %s' % (tag, p, rank, type(e).__name__, e))
+                V('construct:' + type(e).__name__, '%s p=%s rank=%s: %s: %s' % (tag, p, rank, type(e).__name__, e))
                 continue
-            r0 = int(lay.starts[0])
-            for i in range(int(lay.shape[0])):
+            r0 = int(lay.starts[rpos])
+            for i in range(int(lay.shape[rpos])):
                 Ig = r0 + i
                 r = rgrid[Ig]
                 io = float(iota_of(r))
@@ -106,6 +113,8 @@ def run_case(case):
                     return out * bz / dz
                 cplx = (dense * (1 + 0.5j) + 0.25j)
                 datas = [('const', np.full((nz, nq), 1.75)), ('dense', dense), ('dense-again', dense), ('dense-third', dense), ('strided-real-view', np.real(cplx)), ('tiny', 1e-20 * dense), ('integer-typed', np.rint(7 * dense).astype(np.int64))]      # the operator is linear in phi; the potential may be given as an integer array
+                if lname != 'v_parallel_1d':
+                    datas = datas[:2] + datas[-2:]
                 if (p, rank) in ((1, 0), (3, 2)) and i == int(lay.shape[0]) - 1:
                     for a, b in itertools.product(range(nz), range(nq)):
                         e = np.zeros((nz, nq))
@@ -121,7 +130,7 @@ def run_case(case):
                     try:
                         pg.parallel_gradient(phi if name == 'strided-real-view' else phi.copy(), i, der)
                     except Exception as e:  # noqa
-                        V('exception:' + type(e).__name__, '%s p=%d rank=%d local r index %d data=%s: %s: %s' % (tag, p, rank, i, name, type(e).__name__, e))
+                        V('exception:' + type(e).__name__, '%s p=%s rank=%s local r index %d data=%s: %s: %s' % (tag, p, rank, i, name, type(e).__name__, e))
                         break
                     want = ref(phi)
                     tol = 1e-11 * cond * max(1e-300, np.abs(phi).max()) * sum(abs(x) for x in cf) * bz / dz          # relative to the data
@@ -129,14 +138,14 @@ def run_case(case):
                     worst = max(worst, err / tol)
                     if not err <= tol:
                         kindv = 'repeated-call' if name in ('dense-again', 'dense-third') and 'gradient-differs' not in ' '.join(viols) else ('impulse' if name.startswith('imp') else 'data')
-                        V('gradient-differs:' + kindv, '%s process grid %d rank %d global r index %d data=%s: max error %.3g (tol %.3g)' % (tag, p, rank, Ig, name, err, tol))
+                        V('gradient-differs:' + kindv, '%s process grid %s rank %s global r index %d data=%s: max error %.3g (tol %.3g)' % (tag, p, rank, Ig, name, err, tol))
                     if name == 'const' and not np.abs(der).max() <= tol:
-                        V('constant-not-annihilated', '%s p=%d rank=%d r index %d: gradient of a constant is %.3g' % (tag, p, rank, Ig, np.abs(der).max()))
+                        V('constant-not-annihilated', '%s p=%s rank=%s r index %d: gradient of a constant is %.3g' % (tag, p, rank, Ig, np.abs(der).max()))
                     if name == 'dense':
                         d2 = np.full((nz, nq), np.nan)
                         pg.parallel_gradient(np.roll(phi, 1, axis=0).copy(), i, d2)
                         evals += 1
                         if not np.abs(d2 - np.roll(want, 1, axis=0)).max() <= tol:
-                            V('no-commutation-with-z-shift', '%s p=%d rank=%d r index %d: gradient(roll(phi)) != roll(gradient(phi))' % (tag, p, rank, Ig))
+                            V('no-commutation-with-z-shift', '%s p=%s rank=%s r index %d: gradient(roll(phi)) != roll(gradient(phi))' % (tag, p, rank, Ig))
     return {'evals': evals, 'nontrivial': nontriv, 'violations': list(viols.values()), 'stats': {'max_err_over_tol': worst},
             'sample': {'config': tag, 'calls': evals, 'fd_shifts': sh, 'fd_weights': cf}}
